@@ -64,8 +64,9 @@ class Check(HCheck):
         # all insertion orders of sibling stems sharing one 74-byte head (BST shapes decided in the tail)
         sib = al.long_lrus((75, 76, 148, 149, 150, 223) if thorough else (75, 76, 148, 149, 223))
         sp.append(Space(Cfg("never"), [al.page(u) for u in sib], 6 if thorough else 5, name="long/orders"))
-        odd = [A + x for x in (b"\x00|", b"\xff\xfe|", b"p|", b"{|", b"}|", b"p:x\x00|", b"p:x|", b"p:xx|")]
-        sp.append(Space(Cfg("never"), [al.page(u) for u in (odd if thorough else odd[:7])] + [al.links((odd[0], odd[1] + b"\x80|"))], 5 if thorough else 4, name="short/bytes"))
+        # b"|" alone is the empty stem (zero non-separator bytes, closed by the separator)
+        odd = [A + x for x in (b"\x00|", b"\xff\xfe|", b"p|", b"{|", b"|", b"||p:k|", b"}|", b"p:x\x00|", b"p:x|", b"p:xx|")]
+        sp.append(Space(Cfg("never"), [al.page(u) for u in (odd if thorough else odd[:8])] + [al.links((odd[0], odd[1] + b"\x80|"))], 5 if thorough else 4, name="short/bytes"))
         # long stems of equal length but different tails, around clear / reopen (block offsets are
         # handed out again after a clear): every sequence, no merging
         la, lb, lc = A + L.long_stem(75, b"a"), A + L.long_stem(75, b"b"), A + L.long_stem(149, b"c")
@@ -128,6 +129,23 @@ class Check(HCheck):
             extra = [x for x in dfs if x not in clo]
             dup = len(dfs) - len(set(dfs))
             ctx.fail("traversal-differs", "full traversal differs from the named stem-prefixes: missing %s, extra %s, duplicates %d" % ([L.show(x) for x in missing[:4]], [L.show(x) for x in extra[:4]], dup))
+        # traversal restricted to the sub-tree of a located entry (the walk every webentity query
+        # starts with): exactly the named stem-prefixes that extend it, byte for byte
+        starts = sorted(clo) if len(clo) <= 24 else sorted(set(m.named) | set(m.prefix))
+        for l in starts:
+            n = trie.lru_node(l)
+            if n is None:
+                continue
+            try:
+                sub = sorted(lru for _, lru in trie.dfs_iter(n, l))
+            except Exception as e:
+                ctx.fail("subtree-traversal-failed", "traversal below %s failed with %s: %s" % (L.show(l), type(e).__name__, e))
+                return
+            ctx.count("subtree_traversals")
+            exp = sorted(c for c in clo if c.startswith(l))
+            if sub != exp:
+                ctx.fail("subtree-traversal-differs", "traversal below %s yields %s; the named stem-prefixes extending it are %s" % (L.show(l), [L.show(x) for x in sub[:5]], [L.show(x) for x in exp[:5]]))
+                return
         for p, wid in m.prefix.items():
             try:
                 g = t.get_webentity_by_prefix(p)
